@@ -65,6 +65,7 @@ func (c *clipperBase) execute(clipType ClipType, fillRule FillRule,
 	//solutionClosed = make(Paths64, 0)
 	//solutionOpen = make(Paths64, 0)
 
+	c.usingPolyTree = false
 	c.executeInternal(clipType, fillRule)
 	c.buildPaths(solutionClosed, solutionOpen)
 
